@@ -124,6 +124,14 @@ pub struct WorldA {
     pub rs: Option<pp::Server>,
     pub rs_pk_bytes: Vec<u8>,
     pub gen: GenCfg,
+    /// a third of the runs: every client is its own OS thread (released for one call at a time), so
+    /// that state the library keeps per thread is per client, as for clients that are separate processes
+    pub client_threads: Option<crate::kernel::NodeThreads>,
+    /// a third of the single-thread runs: ONE MessageGenerator object per group is reused for every
+    /// report of that group (an application that builds the generator once and reports repeatedly,
+    /// as the crate's own doc examples do), so per-object history matters
+    pub reuse_generators: bool,
+    generators: BTreeMap<usize, MessageGenerator>,
 }
 
 pub trait AOracle {
@@ -189,7 +197,17 @@ impl WorldA {
             rs: None,
             rs_pk_bytes: Vec::new(),
             gen,
+            client_threads: None,
+            reuse_generators: false,
+            generators: BTreeMap::new(),
         };
+        if ctx.ch.chance(1, 3) {
+            w.client_threads = Some(crate::kernel::NodeThreads::default());
+            ctx.stats.probe("runs_with_one_os_thread_per_client");
+        } else if ctx.ch.chance(1, 2) {
+            w.reuse_generators = true;
+            ctx.stats.probe("runs_reusing_one_generator_per_group");
+        }
         w.gen_groups(ctx);
         w
     }
@@ -314,7 +332,13 @@ impl WorldA {
         let mut finals: Vec<(Vec<u8>, Vec<u8>, u32)> = Vec::new();
         for (ti, (m, e, t)) in triples.into_iter().enumerate() {
             let gi = self.groups.len();
-            let inherited = share_src_with.get(&ti).and_then(|o| srcs.get(*o).cloned());
+            // (transitively: no other group that already uses this randomness may have the same threshold,
+            // otherwise the two would legitimately be ONE sharing - same (t, r0, r1) - under two epochs)
+            let inherited = share_src_with.get(&ti).and_then(|o| srcs.get(*o).cloned()).filter(|s| match s {
+                RandSrc::Arbitrary(_) => !self.groups.iter().any(|g| &g.src == s && g.threshold == t),
+                RandSrc::Oprf { .. } => !self.groups.iter().any(|g| &g.src == s && g.measurement == m && g.threshold == t),
+                RandSrc::Local => true,
+            });
             let src = if let Some(s) = inherited {
                 ctx.stats.probe("groups_sharing_client_randomness_across_thresholds");
                 s
@@ -376,7 +400,7 @@ impl WorldA {
                 });
                 g.clients.push(idx);
             }
-            ev!(ctx, "group {} m={} e={} t={} src={:?} clients={}", gi, hex_short(&g.measurement), hex_short(&g.epoch), g.threshold, match &g.src { RandSrc::Local => "local".to_string(), RandSrc::Arbitrary(_) => "arbitrary".to_string(), RandSrc::Oprf{md} => format!("oprf md={}", md) }, g.clients.len());
+            ev!(ctx, "group {} m={} e={} t={} src={:?} clients={}", gi, hex_short(&g.measurement), hex_short(&g.epoch), g.threshold, match &g.src { RandSrc::Local => "local".to_string(), RandSrc::Arbitrary(a) => format!("arbitrary {}", hex_short(a)), RandSrc::Oprf{md} => format!("oprf md={}", md) }, g.clients.len());
             self.groups.push(g);
         }
         if self.groups.iter().any(|g| matches!(g.src, RandSrc::Oprf { .. })) {
@@ -404,11 +428,30 @@ impl WorldA {
         let g = self.groups[self.clients[c].group].clone();
         let node = self.clients[c].node;
         let aux = self.clients[c].aux.clone();
-        let bytes = ctx.os.with_node(node as u64, || {
-            let mg = MessageGenerator::new(SingleMeasurement::new(&g.measurement), g.threshold, &g.epoch);
-            let m = Message::generate(&mg, &rnd, aux.as_ref().map(|a| AssociatedData::new(a))).map_err(|e| e.to_string())?;
-            Ok::<(Vec<u8>, Message), String>((m.to_bytes(), m))
-        });
+        let bytes = if let Some(th) = self.client_threads.as_mut() {
+            let mut entropy = vec![0u8; 256];
+            ctx.os.with_node(node as u64, || {
+                let _ = getrandom::getrandom(&mut entropy);
+            });
+            let (gm, ge, gt, gaux) = (g.measurement.clone(), g.epoch.clone(), g.threshold, aux.clone());
+            th.run(node, entropy, move || {
+                let mg = MessageGenerator::new(SingleMeasurement::new(&gm), gt, &ge);
+                let m = Message::generate(&mg, &rnd, gaux.as_ref().map(|a| AssociatedData::new(a))).map_err(|e| e.to_string())?;
+                Ok::<(Vec<u8>, Message), String>((m.to_bytes(), m))
+            })
+        } else if self.reuse_generators {
+            let mg = self.generators.entry(g.id).or_insert_with(|| MessageGenerator::new(SingleMeasurement::new(&g.measurement), g.threshold, &g.epoch));
+            ctx.os.with_node(node as u64, || {
+                let m = Message::generate(mg, &rnd, aux.as_ref().map(|a| AssociatedData::new(a))).map_err(|e| e.to_string())?;
+                Ok::<(Vec<u8>, Message), String>((m.to_bytes(), m))
+            })
+        } else {
+            ctx.os.with_node(node as u64, || {
+                let mg = MessageGenerator::new(SingleMeasurement::new(&g.measurement), g.threshold, &g.epoch);
+                let m = Message::generate(&mg, &rnd, aux.as_ref().map(|a| AssociatedData::new(a))).map_err(|e| e.to_string())?;
+                Ok::<(Vec<u8>, Message), String>((m.to_bytes(), m))
+            })
+        };
         let (bytes, msg) = match bytes {
             Ok(b) => b,
             Err(e) => {
